@@ -18,4 +18,5 @@ def check(tree, rep, tier='quick', seed=0):
     R.k15_no_live_generator(core, rep)
     R.k8_input_store_writes(core, rep)
     R.k24_tracker_shape(core, rep)
+    R.k24e_waiters_only_tracker_mutates(core, rep)
     rep.floor('core rule obligations', sum(v[0] for k, v in rep.rules.items() if k.startswith('K')), 25)
